@@ -1703,6 +1703,10 @@ def _mk_sub(base, idx):
         for k, v in base[1]:
             if k == idx:
                 return v
+    if base[0] == 'tuple' and is_c(idx) and isinstance(idx[1], int) and not isinstance(idx[1], bool) \
+            and not any(x[0] == 'starred' for x in base[1]):
+        # element k of a literal tuple with fewer elements: IndexError whenever the expression is evaluated
+        return ('fault', 'IndexError', 'element %d of a %d-tuple' % (idx[1], len(base[1])))
     return ('sub', base, idx)
 
 
